@@ -12,6 +12,8 @@ REPLAY_DIR = os.path.join(VERIF, "replays")
 KNOWN = os.path.join(VERIF, "known_findings.jsonl")
 
 EXIT_HELD, EXIT_VIOLATION, EXIT_INCONCLUSIVE = 0, 1, 2
+STAT_KEYS = ("solver_sat", "solver_unsat", "solver_unknown", "forked_branches", "forced_branches",
+             "discharged_by_linear_abstraction", "cvc5_cross_checked", "cvc5_agree", "cvc5_disagree")
 
 
 def seed() -> int:
